@@ -1,5 +1,67 @@
-From Coq Require Import ZArith List.
-From Cspuz Require Import Lib.PyErr Core.Expr Core.Program Graph.GraphModel Graph.Acyclic.
-Theorem acyclic_zero_vertices : forall st flags g, nv g = 0%nat -> post_acyclic st flags g = Err ValueError.
-Proof. intros st flags g H. unfold post_acyclic. rewrite H. reflexivity. Qed.
+From Coq Require Import ZArith List Bool Arith.
+From Cspuz Require Import Lib.PyErr Core.Expr Core.Program Graph.GraphModel Graph.Acyclic
+  Graph.AcyclicExact Graph.AcyclicFlags Graph.AcyclicDecide Graph.AcyclicExamples.
+Import ListNotations.
+Local Open Scope nat_scope.
+
+(* C09, both directions, every loop-free multigraph, every edge pattern, every
+   caller state and assignment; edge flags = arbitrary BoolExpr-like objects
+   denoting the pattern over the caller's variables (flags_denote). *)
+Theorem acyclic_exact : forall gsem st flags g A en,
+  wf_graph g = true -> loop_free g = true -> 1 <= nv g ->
+  flags_denote gsem (next_id st) en flags (length (edges g)) A ->
+  exists st' newv newc,
+    post_acyclic st flags g = Ok st' /\
+    vars st' = vars st ++ newv /\ keys st' = keys st ++ repeat false (length newv) /\
+    cons st' = cons st ++ newc /\
+    ((exists en', agree_below (next_id st) en en' /\
+                  in_bounds_from en' (next_id st) newv = true /\
+                  forallb (holds gsem en') newc = true)
+     <-> forest g A).
+Proof. exact AcyclicExact.acyclic_exact. Qed.
+Print Assumptions acyclic_exact.
+
+(* whole-program form: a model of the caller's program extends to a model of
+   the program after the call exactly when the active edges form a forest *)
+Theorem acyclic_exact_program : forall gsem st flags g A en,
+  wf_graph g = true -> loop_free g = true -> 1 <= nv g ->
+  flags_denote gsem (next_id st) en flags (length (edges g)) A ->
+  closed_state st -> model_of gsem en st ->
+  exists st', post_acyclic st flags g = Ok st' /\
+    ((exists en', agree_below (next_id st) en en' /\ model_of gsem en' st') <-> forest g A).
+Proof. exact AcyclicFlags.acyclic_exact_program. Qed.
+Print Assumptions acyclic_exact_program.
+
+(* flags_denote holds for every list of BoolExpr-like flags over the caller's
+   variables that have a boolean value; the pattern is their value *)
+Theorem flags_boolean_denote : forall gsem k en flags m,
+  flags_boolean gsem k en flags m -> flags_denote gsem k en flags m (pattern_of gsem en flags).
+Proof. exact AcyclicFlags.flags_boolean_denote. Qed.
+Print Assumptions flags_boolean_denote.
+
+(* instance: variables, ~v, v & w, v | w, Python True / False *)
+Theorem acyclic_exact_simple_flags : forall gsem st flags g en,
+  wf_graph g = true -> loop_free g = true -> 1 <= nv g ->
+  (forall e, e < length (edges g) -> exists f, nth_error flags e = Some f /\ simple_flag (next_id st) f) ->
+  closed_state st -> model_of gsem en st ->
+  exists st', post_acyclic st flags g = Ok st' /\
+    ((exists en', agree_below (next_id st) en en' /\ model_of gsem en' st')
+     <-> forest g (pattern_of gsem en flags)).
+Proof. exact AcyclicFlags.acyclic_exact_simple_flags. Qed.
+Print Assumptions acyclic_exact_simple_flags.
+
+(* the certificate level on its own *)
+Theorem acyclic_cert : forall g A, wf_graph g = true -> loop_free g = true ->
+  ((exists r, ranks_in_range g r = true /\ cert_acyclic g A r = true) <-> forest g A).
+Proof. exact AcyclicExact.acyclic_cert. Qed.
+Print Assumptions acyclic_cert.
+
+(* the executable specification run by the harness decides the specification *)
+Theorem forest_b_spec : forall g A, wf_graph g = true -> (forest_b g A = true <-> forest g A).
+Proof. exact AcyclicDecide.forest_b_spec. Qed.
+Print Assumptions forest_b_spec.
+
+(* n = 0 is outside the domain: int_array(0, 0, -1) raises ValueError *)
+Theorem acyclic_zero_vertices : forall st flags g, nv g = 0 -> post_acyclic st flags g = Err ValueError.
+Proof. exact AcyclicExamples.post_acyclic_zero_vertices. Qed.
 Print Assumptions acyclic_zero_vertices.
